@@ -14,3 +14,21 @@ fn prediction_follows_split() {
     let p = make_prediction(&row, &root);
     assert!(p == if x < split { a } else { b });
 }
+
+#[kani::proof]
+#[kani::unwind(5)]
+#[kani::stub(alloc::fmt::format, fmt_stub)]
+fn prune_merges_equal_leaves_only() {
+    let leaf = |p: usize, d: usize| TreeNode::<f32, usize>::empty_leaf(p, d);
+    let (a, b): (usize, usize) = kani::any(); let split: f32 = kani::any(); let x: f32 = kani::any();
+    kani::assume(split.is_finite() && x.is_finite() && a < 4 && b < 4);
+    let mut root = TreeNode { feature_idx: 0, feature_name: String::new(), split_value: split, impurity_decrease: 0.0f32,
+        left_child: Some(Box::new(leaf(a, 1))), right_child: Some(Box::new(leaf(b, 1))), leaf_node: false, prediction: 7usize, depth: 0 };
+    let row = Array1::from(vec![x]);
+    let before = make_prediction(&row, &root);
+    root.prune();
+    let after = make_prediction(&row, &root);
+    assert!(before == after);
+    assert!(root.is_leaf() == (a == b));
+    if !root.is_leaf() { assert!(root.left_child.is_some() && root.right_child.is_some()); }
+}
